@@ -41,6 +41,7 @@ type slSites struct {
 	muxes     []slSite            // MultiplexerSignal messages with >= 2 groups
 	oneofs    []slSite            // messages having a oneof (site.fd unused)
 	ifNums    []slSite            // interface numbers / counts
+	root      protoreflect.Message
 	pool      map[string][]string // owner message name -> entity ids
 	wantOf    map[string]string   // path of an id field -> kind of entity it should name
 	names     []string
@@ -115,7 +116,7 @@ func (s *slSites) collect(m protoreflect.Message, path, owner string) {
 }
 
 func slCollectSites(p *acmelibv1.Network) *slSites {
-	s := &slSites{pool: map[string][]string{}, wantOf: map[string]string{}}
+	s := &slSites{pool: map[string][]string{}, wantOf: map[string]string{}, root: p.ProtoReflect()}
 	s.collect(p.ProtoReflect(), "net", "Network")
 	return s
 }
@@ -217,7 +218,7 @@ func (s *slSites) mutate(r *rand.Rand) (cat, desc string) {
 		"retarget-id", "retarget-id", "retarget-id", "retarget-id", "enum-kind", "enum-kind",
 		"number", "number", "number", "number", "string", "overlap", "overlap", "duplicate-key", "duplicate-key", "duplicate-key",
 		"enum-attribute", "interface-number", "interface-number", "oneof", "oneof", "group-position", "group-position",
-		"group-copy", "group-copy", "group-copy", "many-interfaces"}
+		"group-copy", "group-copy", "group-copy", "many-interfaces", "dup-nested-name", "dup-nested-name", "dup-nested-name"}
 	cat = cats[r.Intn(len(cats))]
 	switch cat {
 	case "clear-submessage":
@@ -413,6 +414,111 @@ func (s *slSites) mutate(r *rand.Rand) (cat, desc string) {
 		}
 		ref.Set(posFd, protoreflect.ValueOfUint32(nv))
 		return cat, sprintf("%s.groups[%d].refs[%d].rel_start_bit: %d set to %d for signal %q, which other groups place at %d", st.path, c.g, c.i, old, nv, ref.Get(idFd).String(), old)
+	case "dup-nested-name":
+		// two signals of ONE message at different multiplexing depths (or under different
+		// multiplexers) get the same name: a duplicate key the loader must refuse wherever the two
+		// sit in the tree and in whatever order the tree enters the message
+		type named struct {
+			ent   protoreflect.Message
+			depth int
+			path  string
+		}
+		var msgs []protoreflect.Message
+		var findMsgs func(m protoreflect.Message)
+		findMsgs = func(m protoreflect.Message) {
+			if m.Descriptor().Name() == "Message" {
+				msgs = append(msgs, m)
+				return
+			}
+			m.Range(func(fd protoreflect.FieldDescriptor, v protoreflect.Value) bool {
+				if fd.Message() == nil || fd.IsMap() {
+					return true
+				}
+				if fd.IsList() {
+					l := v.List()
+					for i := 0; i < l.Len(); i++ {
+						findMsgs(l.Get(i).Message())
+					}
+				} else {
+					findMsgs(v.Message())
+				}
+				return true
+			})
+		}
+		findMsgs(s.root)
+		if len(msgs) == 0 {
+			return cat, ""
+		}
+		msg := msgs[r.Intn(len(msgs))]
+		// mostly a message whose FIRST saved signal is a populated multiplexer (it enters a message
+		// that has no name yet)
+		var muxFirst []protoreflect.Message
+		for _, mm := range msgs {
+			if sf := mm.Descriptor().Fields().ByName("signals"); sf != nil && mm.Get(sf).List().Len() > 0 {
+				first := mm.Get(sf).List().Get(0).Message()
+				if mf := first.Descriptor().Fields().ByName("multiplexer"); mf != nil && first.Has(mf) {
+					muxFirst = append(muxFirst, mm)
+				}
+			}
+		}
+		if len(muxFirst) > 0 && r.Intn(4) != 0 {
+			msg = muxFirst[r.Intn(len(muxFirst))]
+		}
+		var all []named
+		var walk func(sig protoreflect.Message, depth int, path string)
+		walk = func(sig protoreflect.Message, depth int, path string) {
+			fds := sig.Descriptor().Fields()
+			if e := fds.ByName("entity"); e != nil && sig.Has(e) {
+				all = append(all, named{sig.Get(e).Message(), depth, path})
+			}
+			if mf := fds.ByName("multiplexer"); mf != nil && sig.Has(mf) {
+				mx := sig.Get(mf).Message()
+				if sf := mx.Descriptor().Fields().ByName("signals"); sf != nil {
+					l := mx.Get(sf).List()
+					for i := 0; i < l.Len(); i++ {
+						walk(l.Get(i).Message(), depth+1, sprintf("%s/%d", path, i))
+					}
+				}
+			}
+		}
+		if sf := msg.Descriptor().Fields().ByName("signals"); sf != nil {
+			l := msg.Get(sf).List()
+			for i := 0; i < l.Len(); i++ {
+				walk(l.Get(i).Message(), 0, sprintf("%d", i))
+			}
+		}
+		var pairs [][2]int
+		for a := range all {
+			for b := range all {
+				if a < b && all[a].depth != all[b].depth && all[a].depth+all[b].depth >= 1 {
+					pairs = append(pairs, [2]int{a, b})
+					// twice as likely: both inside the tree of one top-level multiplexer (the names a
+					// populated multiplexer brings along when it enters a message)
+					if strings.SplitN(all[a].path, "/", 2)[0] == strings.SplitN(all[b].path, "/", 2)[0] {
+						pairs = append(pairs, [2]int{a, b}, [2]int{a, b})
+						if strings.SplitN(all[a].path, "/", 2)[0] == "0" {
+							pairs = append(pairs, [2]int{a, b}, [2]int{a, b}, [2]int{a, b})
+						}
+					}
+				}
+			}
+		}
+		if len(pairs) == 0 {
+			return cat, ""
+		}
+		pr := pairs[r.Intn(len(pairs))]
+		nameFd := all[pr[0]].ent.Descriptor().Fields().ByName("name")
+		if nameFd == nil {
+			return cat, ""
+		}
+		from, to := pr[0], pr[1]
+		if r.Intn(2) == 0 {
+			from, to = to, from
+		}
+		nm := all[from].ent.Get(nameFd)
+		old := all[to].ent.Get(nameFd).String()
+		all[to].ent.Set(nameFd, nm)
+		return cat, sprintf("signal %s (depth %d) renamed from %q to %q, the name of signal %s (depth %d) of the same message", all[to].path, all[to].depth, old, nm.String(), all[from].path, all[from].depth)
 	case "group-copy":
 		// a child of one group is listed, at the position it has there, in ANOTHER group as well
 		// (where that position may be taken): the loader inserts group by group and must check
